@@ -1,6 +1,6 @@
 (* Property C18 — symbolized callables keep Python call semantics.
    Only statements and [exact]; definitions are in Model/Binding.v, proofs in Proofs/Binding*.v. *)
-From PG Require Import Common.Tactics Model.Binding Proofs.BindingMaps Proofs.BindingProofs Proofs.BindingSig Proofs.BindingReport Proofs.BindingDirect Proofs.BindingClass Proofs.BindingSets Model.BindingLang Gen.BindingCallTime Model.BindingRun Proofs.BindingGen.
+From PG Require Import Common.Tactics Model.Binding Proofs.BindingMaps Proofs.BindingProofs Proofs.BindingSig Proofs.BindingReport Proofs.BindingDirect Proofs.BindingClass Proofs.BindingSets Model.BindingLang Gen.BindingCallTime Model.BindingRun Proofs.BindingGen Proofs.BindingNotify.
 From Coq Require Import NArith.
 Local Open Scope N_scope.
 
@@ -137,3 +137,28 @@ Print Assumptions C18_positional_only_bound_by_name.
 Theorem C18_generated_call_time_code_agrees : grid_agrees = true.
 Proof. exact generated_code_agrees_on_grid. Qed.
 Print Assumptions C18_generated_call_time_code_agrees.
+
+(* Later bindings may come with change notification switched off (rebind(..., skip_notification=True),
+   pg.notify_on_change(False)) and by any route - on the functor, by attribute assignment, or by
+   rebinding an ancestor with a deep key path: they all store the value and record the name
+   ([late_one_n]).  Whatever the flags, the call binds the effective arguments ... *)
+Theorem C18_call_equiv_any_notification : forall q s ctor ov ie lates c ovo ieo,
+  wf_sig s -> no_quirks q -> late_names_ok s (strip lates) -> call_ok s c ->
+  functor_bind_n q s ctor ov ie lates c ovo ieo =
+  spec_outcome s ctor (strip lates) c (match ovo with Some b => b | None => ov end) (match ieo with Some b => b | None => ie end).
+Proof. exact functor_binds_effective_arguments_any_notification. Qed.
+Print Assumptions C18_call_equiv_any_notification.
+
+(* ... and the functor reports the supplied names and values (the default / non-default
+   classification is refreshed by _on_change only, i.e. needs the notification:
+   C18_reported_default_sets). *)
+Theorem C18_reported_args_any_notification : forall q s ctor ov ie lates st0 st,
+  wf_sig s -> no_quirks q -> late_names_ok s (strip lates) ->
+  functor_ctor s ctor ov ie = Ok st0 -> late_all_n q s st0 lates = Ok st ->
+  exists e, bound_arguments s ctor (strip lates) = Ok e /\
+    (forall k, is_va s k = false -> smem k (spec st) = kmem k (enamed e)) /\
+    (has_va s = true -> smem (va_name s) (spec st) = match evar e with Some _ => true | None => false end) /\
+    (forall k, kget k (attrs st) = match kget k (enamed e) with Some v => Some v | None => default_of s k end) /\
+    vattr st = match evar e with Some l => l | None => [] end.
+Proof. exact functor_reports_effective_arguments_any_notification. Qed.
+Print Assumptions C18_reported_args_any_notification.
